@@ -7,6 +7,8 @@ Exit codes of a check: 0 property held on everything explored (KNOWN-FINDING lin
 import hashlib, json, os, re, subprocess, sys, time
 
 VERIF = os.path.dirname(os.path.dirname(os.path.abspath(__file__)))
+# the tree under test: /repo; background exploration runs on a snapshot point VERIF_REPO (and the harness manifest) elsewhere
+REPO = os.environ.get("VERIF_REPO", "/repo")
 SPEC = os.path.join(VERIF, "spec")
 HARNESS = os.path.join(VERIF, "harness")
 CACHE = os.path.join(VERIF, ".cache")
